@@ -134,6 +134,7 @@ def run_tlc(workdir, module, cfg=None, workers=None, timeout=600, simulate=None,
         rc = -1
         subprocess.run(["pkill", "-f", "metadir " + meta], check=False)
     r.wall = time.time() - t0
+    log("tlc %s %s: %.1fs" % (module, cfg, r.wall))
     shutil.rmtree(meta, ignore_errors=True)
     for line in r.out.splitlines():
         m = _CASE_RE.match(line.strip())
@@ -220,8 +221,10 @@ def go_build(pkg, out_name=None, tags="verif", race=False):
     if race:
         cmd.insert(2, "-race")
     cmd.append("./" + pkg)
+    t0 = time.time()
     p = subprocess.run(cmd, cwd=HARNESS, env=goenv(), stdout=subprocess.PIPE,
                        stderr=subprocess.STDOUT, text=True)
+    log("go build %s: %.1fs" % (pkg, time.time() - t0))
     if p.returncode != 0:
         raise Inconclusive("go build %s failed:\n%s" % (pkg, p.stdout[-4000:]))
     return out
